@@ -80,6 +80,10 @@ def realize(desc):
     if 'task' in desc:
         m, c, p, q = desc['task']
         return make_task(m, c, realize(p), realize(q))
+    if 'sub' in desc:
+        base, v = desc['sub']
+        core = importlib.import_module('vlab.tasks_core')
+        return {'float': core.SubFloat, 'str': core.SubStr, 'int': core.SubInt}[base](float(v) if base == 'float' else v)
     if 'u' in desc:
         return make_unsupported(desc['u'])
     if 'm' in desc:
@@ -309,6 +313,36 @@ def plant(rng, desc, bad):
     k = 'd' if 'd' in node else 'fd'
     node[k].append(['planted', bad])
     return d
+
+
+def with_scalar_subclasses(rng, desc):
+    """The same value with some plain str/int/float leaves (at any depth, outside nested tasks too) replaced by an
+    equal instance of a non-Enum SUBCLASS of that scalar type ({'sub': [base, v]}); None when there is no such leaf.
+    Only realize() understands the result."""
+    d = copy.deepcopy(desc)
+    leaves = [(p, n) for p, n in nodes(d)
+              if 'f' in n or ('s' in n and type(n['s']) in (int, str))]
+    if not leaves:
+        return None
+    for path, n in rng.sample(leaves, rng.randrange(1, min(3, len(leaves)) + 1)):
+        new = {'sub': ['float', n['f']]} if 'f' in n else {'sub': [type(n['s']).__name__, n['s']]}
+        if not path:
+            return new
+        n.clear()
+        n.update(new)
+    return d
+
+
+def plain_scalars(desc):
+    """Inverse of with_scalar_subclasses."""
+    if isinstance(desc, dict) and 'sub' in desc:
+        base, v = desc['sub']
+        return {'f': v} if base == 'float' else {'s': v}
+    if isinstance(desc, dict):
+        return {k: plain_scalars(v) for k, v in desc.items()}
+    if isinstance(desc, list):
+        return [plain_scalars(x) for x in desc]
+    return desc
 
 
 def harness_norm(obj):
